@@ -50,7 +50,8 @@ def gen_case(streams, tier):
     cfg = gen.make_cfg(nets=(2, 12), ops='w~&|^+-*<>=xcs', names='awkward', awk_internal=0.4,
                        awk_exclude=('tmp', 'é'),
                        class_pool=['bit', 'small', 'mid', 'w64'],
-                       mem_wide_aw=0.0, mem_aw=(1, 4), rom_aw_max=3, regs=(0, 3), two_write_ports=0.4)
+                       mem_wide_aw=0.0, mem_aw=(1, 4), rom_aw_max=3, regs=(0, 3), roms=(0, 2),
+                       two_write_ports=0.4)
     script = gen.gen_script(g, cfg)
     # Verilog-string constants: their auto-generated name contains a quote
     ncyc = streams['inputs'].randint(2, 6)
@@ -211,7 +212,16 @@ def run(case, res):
     ]
     if ins and outw:
         calls.append(('paths', lambda f: f.write(str(len(pyrtl.paths(ins[0], outw[0], block=blk) or [])))))
-    calls.append(('output_to_firrtl', lambda f: pyrtl.output_to_firrtl(f, block=blk)))
+    roms = [m for m in b.mems if isinstance(m, pyrtl.RomBlock)]
+    all_rom = roms and len(roms) == len(b.mems) and \
+        all(m.get('rom') and m['rom']['kind'] in ('list', 'func') and not m['rom'].get('pad')
+            for m in script['mems'])
+    if all_rom and case['writer_faults'][0] % 2 == 0:
+        # the documented rom_blocks argument (ROM contents are materialised by the export)
+        calls.append(('output_to_firrtl', lambda f: pyrtl.output_to_firrtl(f, rom_blocks=roms, block=blk)))
+        res.probes.hit('firrtl_with_rom_blocks')
+    else:
+        calls.append(('output_to_firrtl', lambda f: pyrtl.output_to_firrtl(f, block=blk)))
     fp0 = transforms.fingerprint(blk)
 
     def behaves():
@@ -227,6 +237,12 @@ def run(case, res):
                 fn(buf)
         except (pyrtl.PyrtlError, pyrtl.PyrtlInternalError) as e:
             res.probes.hit('call_refused:' + name)
+            refused = True
+        except HarnessError:
+            raise
+        except Exception as e:
+            # an export that crashes is not C20's business; what it leaves behind is
+            res.probes.hit('call_crashed:' + name)
             refused = True
         else:
             refused = False
